@@ -83,10 +83,10 @@ def parseFmt : String → Option Fmt
   | "bin" => some .bin | "json" => some .json | _ => none
 def parseKK : String → Option KeyKind
   | "vk" => some .vk | "u64" => some .u64 | "i64" => some .i64 | "str" => some .str
-  | "bytes" => some .bytes | "int" => some .int | "uint" => some .uint | "sk" => some .sk | "skc" => some .skc | _ => none
+  | "bytes" => some .bytes | "int" => some .int | "uint" => some .uint | "sk" => some .sk | "skc" => some .skc | "strx" => some .strx | _ => none
 def parseVK : String → Option ValKind
   | "u64" => some .u64 | "bytes" => some .bytes | "str" => some .str
-  | "ptr" => some .ptr | "iface" => some .iface | "long" => some .long | "nb" => some .nb | _ => none
+  | "ptr" => some .ptr | "iface" => some .iface | "long" => some .long | "nb" => some .nb | "esc" => some .esc | _ => none
 
 partial def step (s : St) (line : String) : St × String :=
   let toks := (line.trimAscii.toString.splitOn " ").filter (· ≠ "")
